@@ -9,7 +9,7 @@ Definition in_cset (c:chr) (s:cset) : bool :=
 Inductive re :=
 | Eps | Chr (s:cset) | Seq (a b:re) | Alt (a b:re)
 | Rep (greedy:bool) (a:re) (lo:nat) (hi:option nat)
-| Bol | Eol
+| Bol | Eol | Eos
 | Look (ahead:bool) (neg:bool) (width:nat) (a:re)   (* lookbehind has fixed width *)
 | Grp (n:nat) (a:re).
 
@@ -53,6 +53,7 @@ Fixpoint ms (r:re) (i:nat) (c:caps) {struct r} : list (nat*caps) :=
       mand lo hi i c
   | Bol => if Nat.eqb i 0 then [(i,c)] else []
   | Eol => if eol i then [(i,c)] else []
+  | Eos => if Nat.eqb i slen then [(i,c)] else []
   | Look ahead neg w a =>
       let start := if ahead then Some i else if Nat.leb w i then Some (i - w) else None in
       let ok := match start with None => false
@@ -82,6 +83,7 @@ Fixpoint m (r:re) (i:nat) (c:caps) (k : nat*caps -> R) {struct r} : R :=
       mand lo hi i c k
   | Bol => if Nat.eqb i 0 then k (i,c) else None
   | Eol => if eol i then k (i,c) else None
+  | Eos => if Nat.eqb i slen then k (i,c) else None
   | Look ahead neg w a =>
       let start := if ahead then Some i else if Nat.leb w i then Some (i - w) else None in
       let ok := match start with None => false
@@ -95,7 +97,7 @@ Proof. induction l; simpl; auto. destruct (f a); simpl; auto. Qed.
 
 Theorem m_is_first_of_ms : forall r i c k, m r i c k = first_some k (ms r i c).
 Proof.
-  induction r as [| cs | a IHa b IHb | a IHa b IHb | g a IHa lo hi | | | ahead neg w a IHa | n a IHa]; intros i c k.
+  induction r as [| cs | a IHa b IHb | a IHa b IHb | g a IHa lo hi | | | | ahead neg w a IHa | n a IHa]; intros i c k.
   - simpl. destruct (k (i,c)); auto.
   - simpl. destruct (nth_error s i); auto. destruct (in_cset c0 cs); simpl; auto. destruct (k (S i,c)); auto.
   - simpl. rewrite IHa, first_some_flat_map. apply first_some_ext. intros; apply IHb.
@@ -135,6 +137,7 @@ Proof.
     + rewrite IHa, first_some_flat_map. apply first_some_ext. intros p. apply IHlo.
   - simpl. destruct (Nat.eqb i 0); simpl; auto. destruct (k (i,c)); auto.
   - simpl. destruct (eol i); simpl; auto. destruct (k (i,c)); auto.
+  - simpl. destruct (Nat.eqb i slen); simpl; auto. destruct (k (i,c)); auto.
   - cbn [m ms]. 
     assert (E: forall st, match m a st c (fun p => if (if ahead then true else Nat.eqb (fst p) i) then Some p else None) with Some _ => true | None => false end
                = existsb (fun p => if ahead then true else Nat.eqb (fst p) i) (ms a st c)).
